@@ -102,7 +102,7 @@ void aabbBody(vf::Ctx & c)
     // exact verdict in long double
     LD dist = fabsl(static_cast<LD>(v) - static_cast<LD>(ctr[d]));
     bool in = dist <= static_cast<LD>(half[d]);
-    c.check(in == !out, "harness self-check: verdict class disagrees with exact arithmetic");
+    c.harnessCheck(in == !out, "verdict class disagrees with exact arithmetic");
     expectInside = expectInside && in;
   }
   if (boundary) {c.label("face/edge/corner-or-ulp-neighbour");}
